@@ -24,7 +24,7 @@ package file
 //@ func deriveKeyArgon2(passphrase, salt, keyLen) (key)
 //@   property C19
 //@   fresh key
-//@   ensures [kdf] val(key) == KDF(val(passphrase), val(salt)) && len(key) == keyLen
+//@   ensures [kdf] val(key) == Argon2(val(passphrase), val(salt), 3, 32768, 4, keyLen) && len(key) == keyLen
 
 //@ func getAddress(pubKey) (addr, err)
 //@   property C19
